@@ -207,6 +207,11 @@ func (c *Ctx) c09Keys(identity bool) {
 				c.c09Native("case-one", string(t), identity, true)
 			}
 		}
+		// the part before / after the separator in the other case
+		if sepi := strings.LastIndexByte(s, '1'); sepi > 0 {
+			c.c09Native("case-prefix-part", swapCase(s[:sepi])+s[sepi:], identity, true)
+			c.c09Native("case-data-part", s[:sepi]+swapCase(s[sepi:]), identity, true)
+		}
 		// one LETTER in the other case, every occurrence of it
 		for _, ch := range b32charset {
 			if ch >= 'a' && ch <= 'z' && strings.ContainsRune(strings.ToLower(s), ch) {
